@@ -155,6 +155,16 @@ def gen_c01(tier: str, rng: random.Random) -> Iterator[Dict[str, Any]]:
                      fam="c01/rawhdr")
     sc["steps"] = [{"s": "send"}]
     yield sc
+    # ... combined with server_names (the served host is looked up in the same header list, however the client
+    # spelled the header's name) and with a body
+    for hi, hdrs in enumerate(([["Host", "hypercorn"], ["X-A", "1"]], [["HOST", "hypercorn"]], [["host", "hypercorn"]])):
+        for raw in (True, False):
+            req = {"rid": 1, "method": "POST", "toks": targets[2], "headers": hdrs, "body": {"framing": "cl", "len": 7}}
+            sc = base_script([req], {"*": build.simple_resp_program(chunks=[1])},
+                             cfg={"h11_pass_raw_headers": raw, "server_names": ["hypercorn", "other.example"]},
+                             fam="c01/rawhdr-server-names/%d/%s" % (hi, raw))
+            sc["steps"] = [{"s": "send"}, {"s": "dt", "d": 0.05}]
+            yield sc
     # truncated body: client goes away mid-body -> no more_body=false
     for framing in ("cl", "chunked"):
         body = {"framing": framing, "len": 20, "sent": 8, "chunks": [8, 12]}
@@ -349,6 +359,17 @@ def gen_c06(tier: str, rng: random.Random) -> Iterator[Dict[str, Any]]:
                                {"s": "go", "app": "1", "n": 1}, {"s": "dt", "d": 0.1}]
             else:
                 sc["steps"] = [{"s": "send", "upto": total}, {"s": "dt", "d": 0.1}]
+            yield sc
+    # a pipelined request that takes longer than the keep-alive timeout: it was buffered when the response before
+    # it completed (the connection was never idle), the server closes only after answering it
+    for nreq in (2, 3):
+        for ka in (2.0,):
+            reqs = [{"rid": i, "method": "GET", "target": "/p%d" % i} for i in range(1, nreq + 1)]
+            apps = {str(i): build.simple_resp_program(chunks=[2]) for i in range(1, nreq + 1)}
+            apps["2"] = [["recv_body"], ["gate"]] + build.simple_resp_program(chunks=[3], read_first=False)
+            sc = base_script(reqs, apps, cfg={"keep_alive_timeout": ka}, fam="c06/slow-pipelined/%d" % nreq)
+            sc["steps"] = [{"s": "send"}, {"s": "dt", "d": 0.05}, {"s": "dt", "d": ka * 1.5}, {"s": "go", "app": "2", "n": 1},
+                           {"s": "dt", "d": 0.05}]
             yield sc
     # a message that goes wrong after its head: a chunk-size line that is not a number, or the client's EOF in
     # the middle of the body - alone and as the second request of a pipeline, with the application waiting
